@@ -243,7 +243,7 @@ Definition Init (s : stateT) : Prop := hist_ok s /\ cfg_ok s /\ rows s = [] /\ a
 Definition all_closed (a : list acert) : Prop := forall c, In c a -> is_open (a_st c) = false.
 
 Definition set_st (r : rowT) (x : status) : rowT :=
-  Row (height r) (cid r) x (from r) (to r) (prev r) (new r) (retry r) (r_exits r) (r_imported r).
+  Row (height r) (cid r) x (from r) (to r) (prev r) (new r) (retry r) (r_exits r) (r_imported r) (r_hasprev r).
 
 (* ---------------- history ---------------- *)
 Lemma leaves_upto_split l f t : sorted l -> 1 <= f -> f <= t + 1 ->
@@ -384,6 +384,21 @@ Proof.
     cbn [cp_pending cp_called]. repeat split; auto; intros; congruence.
 Qed.
 
+(* getNextHeightAndPreviousLER on a certificate in error: whether or not the row stores its previous LER (a row rebuilt
+   at start-up from an Agglayer header may not), the answer is that previous LER: the fallback (start LER at height 0,
+   else the new LER of the settled row below) gives the same value on a gap-free chain *)
+Lemma inerror_prev_ler l sy (top : rowT) rest : chain_ok l sy (top :: rest) -> st top = InError ->
+  next_height_ler (top :: rest) (Some top) = Some (height top, prev top).
+Proof.
+  intros Hc Est. unfold AggsenderProtocol.next_height_ler. rewrite Est. cbn [is_closed is_open negb is_settled is_in_error].
+  destruct (r_hasprev top); [reflexivity|]. inversion Hc as [|r Hh Hf Hp Hr|r r' t Hc' Hst Hh Hf Hp Hr]; subst.
+  - rewrite Hh, Hp. reflexivity.
+  - replace (height top =? 0) with false by (symmetry; apply N.eqb_neq; lia). cbn [find].
+    replace (height top =? height top - 1) with false by (symmetry; apply N.eqb_neq; lia).
+    replace (height r' =? height top - 1) with true by (symmetry; apply N.eqb_eq; lia).
+    rewrite Hst, Hp. reflexivity.
+Qed.
+
 (* what C02 demands of a submission, relative to the local records at the time it is built *)
 Definition sub_ok (rs : list rowT) (sb : subT) : Prop :=
   match rs with
@@ -419,12 +434,14 @@ Proof.
     inversion Hb; subst sb rc'; clear Hb. cbn [sub_ok s_height s_prev s_from s_id s_to s_exits s_imported s_new s_meta].
     repeat split; try reflexivity.
     + cbn [replace_top]. apply ok_first; cbn [sub_row height from prev s_height s_from s_prev]; try reflexivity.
-      unfold row_ok, sub_row; cbn [from to prev new r_exits r_imported s_height s_prev s_new s_from s_to s_id s_exits s_imported].
+      unfold row_ok, sub_row; cbn [from to prev new r_exits r_imported r_hasprev s_height s_prev s_new s_from s_to s_id s_exits s_imported].
       repeat split; try lia; try reflexivity. replace (start_block + 1 - 1) with start_block by lia. exact Hler.
     + replace (start_block + 1 - 1) with start_block by lia. exact Hler.
   - pose proof (chain_ok_head_row _ _ _ _ Hc) as (Hr1 & Hr2 & Hr3 & Hr4 & Hr5 & Hr6 & Hr7).
+    pose proof (inerror_prev_ler _ _ _ _ Hc) as Hfb.
     cbn [range_start] in Hst. destruct Hst as [Herr Hnerr].
-    destruct (st top) eqn:Est; cbn [AggsenderProtocol.next_height_ler] in Hb; rewrite Est in Hb; cbn [is_closed is_open negb is_settled is_in_error] in Hb;
+    destruct (st top) eqn:Est; [| | |rewrite (Hfb eq_refl) in Hb|];
+      cbn [AggsenderProtocol.next_height_ler] in Hb; rewrite ?Est in Hb; cbn [is_closed is_open negb is_settled is_in_error] in Hb;
       try (destruct ((0 <? rc) && negb (f =? from top)); discriminate).
     + (* replacement of the certificate in error *)
       destruct (Herr eq_refl) as [-> Hrc].
@@ -436,7 +453,7 @@ Proof.
       * unfold sub_row; cbn [replace_top s_height height]. rewrite N.eqb_refl.
         assert (Hrow : row_ok (l2 s) (synced s)
                   (Row (height top) (next_id s) Pending (from top) t (prev top) (root_of (leaves_upto (l2 s) t)) rc
-                       (bridges_in (l2 s) (from top) t) (claims_in (l2 s) (from top) t))).
+                       (bridges_in (l2 s) (from top) t) (claims_in (l2 s) (from top) t) true)).
         { unfold row_ok; cbn [from to prev new r_exits r_imported]. repeat split; try lia; try reflexivity; exact Hr4. }
         cbn [s_id s_from s_to s_prev s_new s_exits s_imported].
         inversion Hc; subst.
@@ -454,7 +471,7 @@ Proof.
         replace (height top =? height top + 1) with false by (symmetry; apply N.eqb_neq; lia).
         cbn [s_id s_from s_to s_prev s_new s_exits s_imported].
         apply ok_next; cbn [height from prev]; try assumption; try reflexivity.
-        unfold row_ok; cbn [from to prev new r_exits r_imported]. repeat split; try lia; try reflexivity.
+        unfold row_ok; cbn [from to prev new r_exits r_imported r_hasprev]. repeat split; try lia; try reflexivity.
         replace (to top + 1 - 1) with (to top) by lia. exact Hr5.
       * replace (to top + 1 - 1) with (to top) by lia. exact Hr5.
 Qed.
